@@ -28,6 +28,10 @@ type c12Case struct {
 	Debug bool       `json:"debug"`
 	Steps []c12Step  `json:"steps"` // the whole history (a replay runs all of it, probing after every step)
 	Seed  uint64     `json:"poison_seed"`
+	// Canon: the Config values handed to the middlewares are the CANONICAL form of the specs (what another middleware's
+	// Config() returns: sorted, lower-cased, deduplicated lists) instead of the lists as written
+	// (lesson of seeded change C12-h: an argument adopted without copying only when it already is in internal form)
+	Canon bool `json:"canonical_arguments,omitempty"`
 	// FailedAfter is the number of steps after which the mismatch was first seen (0 = before any step of this
 	// world: another world running in parallel poisoned process-wide state)
 	FailedAfter int `json:"failed_after"`
@@ -151,13 +155,22 @@ func altSpec(c *CfgSpec) *CfgSpec {
 	return &d
 }
 
-func newC12World(specs []*CfgSpec, debug bool) (*c12World, error) {
+func newC12World(specs []*CfgSpec, debug bool, canon bool) (*c12World, error) {
 	w := &c12World{specs: specs, debug: debug}
 	w.base = []*CfgSpec{specs[0], specs[0], specs[1]}
 	w.cur = []*CfgSpec{specs[0], specs[0], specs[1]}
 	w.isAlt = []bool{false, false, false}
 	shared := specs[0].Config()
 	other := specs[1].Config()
+	if canon {
+		for _, p := range []*cors.Config{&shared, &other} {
+			helper, err := cors.NewMiddleware(*p)
+			if err != nil {
+				return nil, err
+			}
+			*p = *helper.Config()
+		}
+	}
 	build := []*cors.Config{&shared, &shared, &other}
 	semOf := []*Sem{specs[0].Sem(), specs[0].Sem(), specs[1].Sem()}
 	for i, cfg := range build {
@@ -339,7 +352,7 @@ func stepNames(s []c12Step) []string {
 
 func c12RunHistory(r *Run, l *Local, cs c12Case) {
 	l.cur = func() any { return cs }
-	w, err := newC12World(cs.Specs, cs.Debug)
+	w, err := newC12World(cs.Specs, cs.Debug, cs.Canon)
 	if err != nil {
 		return // C05's business
 	}
@@ -358,7 +371,7 @@ func c12RunHistory(r *Run, l *Local, cs c12Case) {
 
 func TestVerif_C12(t *testing.T) {
 	r := newRun(t, "C12")
-	r.Rule("worlds of three live middlewares (two built from one shared Config value - one by NewMiddleware, one by Reconfigure on a zero value - and one with another configuration, reached by reconfiguring a middleware of a third configuration through passthrough) x debug x histories of adversarial steps: overwrite/re-slice/grow every slice of the Config argument after the call, of every Config() result, " +
+	r.Rule("worlds of three live middlewares, built from configurations as written or (half of the worlds) from their canonical form as returned by another middleware's Config(), a quarter of them with lists of 9-40 elements (two built from one shared Config value - one by NewMiddleware, one by Reconfigure on a zero value - and one with another configuration, reached by reconfiguring a middleware of a third configuration through passthrough) x debug x histories of adversarial steps: overwrite/re-slice/grow every slice of the Config argument after the call, of every Config() result, " +
 		"a wrapped handler overwriting in place (and beyond length, within capacity) every request- and response-header slice it can reach on every non-preflight path, ordinary requests of all kinds, Reconfigure with an equal configuration that is poisoned afterwards, and retargeting (the caller overwrites the slices it handed in with the values of another valid configuration of the same list lengths, then reconfigures to that configuration). After every step probes are compared with the answers of a fresh never-touched middleware (full suite after the last step). " +
 		"evaluation = one probe; non-trivial = distinct (world, history), by hash; every (step kind) x (probe kind) pair occurs. The race phase hammers shared middlewares from 16 goroutines under -race.")
 	r.Assume("the wrapped handler is the only adversary inside the request path: what a custom ResponseWriter or an outer middleware could reach on the preflight path (where the wrapped handler never runs) is outside the statement of C12")
@@ -384,12 +397,18 @@ func TestVerif_C12(t *testing.T) {
 		rng := l.Rng
 		for i := 0; i < per; i++ {
 			pickSpec := func() *CfgSpec {
-				if rng.IntN(2) == 0 {
+				switch rng.IntN(4) {
+				case 0, 1:
 					return prod[rng.IntN(len(prod))]
+				case 2:
+					return randLongListsCfg(rng)
 				}
 				return randRichValidCfg(rng)
 			}
-			cs := c12Case{Specs: []*CfgSpec{pickSpec(), pickSpec()}, Debug: rng.IntN(2) == 0, Seed: rng.Uint64()}
+			cs := c12Case{Specs: []*CfgSpec{pickSpec(), pickSpec()}, Debug: rng.IntN(2) == 0, Seed: rng.Uint64(), Canon: rng.IntN(2) == 0}
+			if cs.Canon {
+				l.counters["worlds_with_canonical_arguments"]++
+			}
 			// every step kind at least once, then PRNG
 			for _, k := range shuffled(rng, c12Kinds) {
 				cs.Steps = append(cs.Steps, c12Step{k, rng.IntN(3)})
@@ -419,7 +438,7 @@ func c12Race(r *Run, prod []*CfgSpec) {
 	r.ParallelN(4, worlds, func(l *Local) {
 		rng := l.Rng
 		specs := []*CfgSpec{prod[rng.IntN(len(prod))], randRichValidCfg(rng)}
-		w, err := newC12World(specs, rng.IntN(2) == 0)
+		w, err := newC12World(specs, rng.IntN(2) == 0, rng.IntN(2) == 0)
 		if err != nil {
 			return
 		}
